@@ -234,38 +234,19 @@ class Canon:
         xs = S.Rational(x0.numerator, x0.denominator)
         e = expr
         e = e.replace(lambda u: u.func in (S.sin, S.cos, S.sinh, S.cosh), lambda u: u.rewrite(S.exp))
-        e = S.expand(e)
         out = []
-        for term in S.Add.make_args(e):
+        for factors in self.split_terms(e, var):
             rest = S.Integer(1)
             lam = S.Integer(0)
             mu = S.Integer(0)
             ts = []
             delta = None
-            for fac in S.Mul.make_args(term):
+            expo_total = []
+            for fac in factors:
                 base, ex = fac.as_base_exp()
                 name = base.func.__name__ if base.is_Function else ''
                 if fac.func == S.exp:
-                    arg = S.expand(fac.args[0])
-                    p = S.Poly(arg, var) if arg.has(var) else None
-                    if p is not None and p.degree() == 2:
-                        # Gaussian exp(-pi (a x + b)^2 + const)
-                        c2, c1, c0 = p.coeff_monomial(var ** 2), p.coeff_monomial(var), p.coeff_monomial(1)
-                        a2 = S.simplify(-c2 / S.pi)
-                        a = S.sqrt(a2)
-                        if not a.is_Rational:
-                            raise CanonFail('gaussian scale %s' % a2)
-                        b = S.simplify(-c1 / (2 * S.pi * a))
-                        if not b.is_Rational:
-                            raise CanonFail('gaussian shift %s' % b)
-                        ts.append(('gauss', self.frac(a), self.frac(b)))
-                        mu += S.simplify(c0 + S.pi * b ** 2)
-                    elif p is not None and p.degree() > 2:
-                        raise CanonFail('exp of degree %d' % p.degree())
-                    else:
-                        a, b = self.lin(arg, var)
-                        lam += a
-                        mu += b
+                    expo_total.append(fac.args[0])
                 elif name in ('sincn', 'sincu') and ex.is_Integer and int(ex) > 0:
                     a, b = self.lin(base.args[0], var)
                     if name == 'sincu':
@@ -283,6 +264,30 @@ class Canon:
                     delta = base
                 else:
                     rest *= fac
+            if expo_total:
+                arg = S.expand(sum(expo_total))
+                p = S.Poly(arg, var) if arg.has(var) else None
+                if p is not None and p.degree() == 2:
+                    # Gaussian exp(-pi (a x + b)^2 + const)
+                    c2, c1, c0 = p.coeff_monomial(var ** 2), p.coeff_monomial(var), p.coeff_monomial(1)
+                    a2 = S.simplify(-c2 / S.pi)
+                    a = S.sqrt(a2)
+                    if not a.is_Rational or a == 0:
+                        raise CanonFail('gaussian scale %s' % a2)
+                    # real part of the linear coefficient belongs to the Gaussian, imaginary part is a modulation
+                    c1re, c1im = S.expand(c1).as_real_imag()
+                    b = S.simplify(-c1re / (2 * S.pi * a))
+                    if not b.is_Rational:
+                        raise CanonFail('gaussian shift %s' % b)
+                    ts.append(('gauss', self.frac(a), self.frac(b)))
+                    lam += S.I * c1im
+                    mu += S.simplify(c0 + S.pi * b ** 2)
+                elif p is not None and p.degree() > 2:
+                    raise CanonFail('exp of degree %d' % p.degree())
+                else:
+                    a, b = self.lin(arg, var)
+                    lam += a
+                    mu += b
             if delta is not None:
                 n = int(delta.args[1]) if len(delta.args) > 1 else 0
                 a, b = self.lin(delta.args[0], var)
@@ -292,6 +297,8 @@ class Canon:
                     raise CanonFail('delta of a constant')
                 loc = -bv / av
                 locs = S.Rational(loc.numerator, loc.denominator)
+                if rest.has(var):
+                    rest = S.cancel(S.together(rest))
                 if n != 0 and (rest.has(var) or lam != 0):
                     raise CanonFail('delta derivative with variable coefficient')
                 if ts:
@@ -324,6 +331,49 @@ class Canon:
             out.append('R %s %s %s %s %s %s %s %s' % (fstr(lam_v[0]), fstr(lam_v[1]), fstr(mu_v[0]), fstr(mu_v[1]), fstr(ph),
                                                      fstr(v[0]), fstr(v[1]), tss))
         return out
+
+    def special(self, x, var):
+        S = self.S
+        if x.has(S.DiracDelta):
+            return True
+        for fn in x.atoms(S.Function):
+            if fn.func == S.exp and fn.has(var):
+                return True
+            if fn.func.__name__ in ('sincn', 'sincu') and fn.has(var):
+                return True
+        return False
+
+    def split_terms(self, e, var):
+        """e as a sum of products: list of factor lists.  Only sums that contain deltas / exponentials / sinc atoms are
+        distributed (a plain `expand` would move exponentials into denominators)."""
+        S = self.S
+        if e.is_Add:
+            return [t for a in e.args for t in self.split_terms(a, var)]
+        if e.is_Mul:
+            res = [[]]
+            for fac in e.args:
+                if (fac.is_Add or fac.is_Mul or (fac.is_Pow and fac.exp.is_Integer and fac.exp > 1)) and self.special(fac, var):
+                    sub = self.split_terms(fac, var)
+                    res = [r + s2 for r in res for s2 in sub]
+                elif fac.is_Pow and fac.exp.is_Integer and fac.exp < 0 and self.special(fac.base, var):
+                    # exponential inside a denominator: c*exp(u)*(...)  ->  pull the exponential out when it factors
+                    base = S.factor_terms(fac.base)
+                    pulled = None
+                    for ea in base.atoms(S.exp):
+                        q = S.simplify(base / ea)
+                        if not self.special(q, var):
+                            pulled = (ea, q)
+                            break
+                    if pulled is None:
+                        raise CanonFail('transcendental denominator')
+                    n = -int(fac.exp)
+                    res = [r + [S.exp(-n * pulled[0].args[0]), pulled[1] ** (-n)] for r in res]
+                else:
+                    res = [r + [fac] for r in res]
+            return res
+        if e.is_Pow and e.exp.is_Integer and e.exp > 1 and e.base.is_Add and self.special(e.base, var):
+            return self.split_terms(S.expand(e), var)
+        return [[e]]
 
     def split_exponent(self, kappa, consts, allow_pi_in_loc=False):
         """constant exponent kappa = k0 + k1*pi  ->  (phase turns = Im(k1)/2, mu = k0 + Re(k1)*pi0)"""
@@ -380,6 +430,7 @@ def rand_piece(rng, direction, simple=False):
     kinds = FWD_KINDS if direction == 'fwd' else INV_KINDS
     k = rng.choice(kinds)
     al = Fraction(rng.choice([1, 2, 3, 4, 5]), rng.choice([1, 1, 2]))
+    reflect = False
     if k == 'expu':
         k = 'expu:0:%s:0' % fstr(al)
     elif k == 'expuk':
@@ -391,10 +442,13 @@ def rand_piece(rng, direction, simple=False):
     elif k == 'cpole':
         k = 'cpole:1:%s:0' % fstr(al)
     elif k == 'cpoleR':
-        k = 'cpole:1:%s:0' % fstr(-al)           # pole in the right half plane: left-sided decaying exponential
+        k = 'cpole:1:%s:0' % fstr(al)            # reflected below: pole in the right half plane (left-sided decaying exponential)
+        reflect = True
     elif k == 'cpole2':
         k = 'cpole:2:%s:0' % fstr(al)
     a = Fraction(1) if simple else rng.choice(SCALES)
+    if reflect:
+        a = -abs(a)
     b = Fraction(0) if simple else rng.choice(SHIFTS)
     mod = 'none' if simple else rng.choice(['none', 'none', 'none', 'exp', 'cos', 'sin'])
     theta = rng.choice(THETAS) if mod != 'none' else Fraction(0)
@@ -446,8 +500,8 @@ def run(chk, replay=None):
     can = Canon(S, lcapy)
     rng = chk.rng
     quick = chk.tier == 'quick'
-    n_fwd = 70 if quick else 900
-    n_inv = 60 if quick else 800
+    n_fwd = 24 if quick else 420
+    n_inv = 24 if quick else 420
     n_conv = 1 if quick else 4
     chk.coverage['rule'] = ('each case = (direction, frequency variable, signal); a signal is a sum of 1-3 pieces c*mod(theta)*K(a*v+b) with K from the '
                             'class (constants, steps, signum, deltas, |t|, ramps, t, t^2, rect/tri/sinc/sinc^2, Gaussian, one-/two-sided and '
@@ -455,66 +509,103 @@ def run(chk, replay=None):
                             'non-trivial = Lcapy returned a closed form that the canonicaliser reduced to an observation; distinct by (direction, variable, pieces)')
     disagreements = []
     counterexamples = [0]
+    import time
+    tlast = [time.time()]
+    chk.coverage['section_wall_s'] = {}
 
-    def sample_point():
+    def tick(name):
+        now = time.time()
+        chk.coverage['section_wall_s'][name] = round(now - tlast[0], 1)
+        tlast[0] = now
+
+    def sample_point(rng=rng):
         pi0 = Fraction(rng.choice([3, 22, 25, 16, 31]), rng.choice([1, 7, 8, 5, 10]))
         pi0 = pi0 if pi0 > 1 else pi0 + 3
         dt0 = Fraction(rng.choice([1, 2, 3, 5]), rng.choice([2, 3, 7]))
         x0 = Fraction(rng.choice([-1, 1]) * rng.randint(1, 60), rng.choice([11, 13, 17]))
         return pi0, dt0, x0
 
+    MK = {'t': lcapy.texpr, 'f': lcapy.fexpr, 'omega': lcapy.omegaexpr, 'F': lcapy.Fexpr, 'Omega': lcapy.Omegaexpr}
+
+    def mk(text, var):
+        """Lcapy expression of the domain of `var` (a constant would otherwise have no domain)"""
+        return MK[var](text)
+
+    import signal
+    import random
+
+    class LcapyTimeout(Exception):
+        pass
+
+    def _alarm(signum, frame):
+        raise LcapyTimeout()
+
+    signal.signal(signal.SIGALRM, _alarm)
+    tlimit = 12 if quick else 40
+
+    def limited(fn, *a, **kw):
+        """run a call into the real code under a wall-clock limit (SymPy's integrators occasionally do not return)"""
+        signal.alarm(tlimit)
+        try:
+            return fn(*a, **kw)
+        finally:
+            signal.alarm(0)
+
     def lcapy_transform(text, src, dst):
-        """expression text in variable src -> sympy result in variable dst (or an Exception)"""
-        e = lexpr(text)
-        r = e(LV[dst])
-        return r
+        """expression text in variable src -> Lcapy result in variable dst (or an Exception)"""
+        return limited(lambda: mk(text, src)(LV[dst]))
 
     def obs_of(result, var, x0, pi0, dt0):
         sym = result.sympy if hasattr(result, 'sympy') else result
         return can.entries(sym, LV[var].sympy, x0, pi0, dt0)
 
-    def classify_key(direction, dom, pieces, what):
-        kinds = sorted({p.kind.split(':')[0] + (('R' if Fraction(p.kind.split(':')[2]) < 0 else '') if p.kind.startswith('cpole') else '')
-                        for p in pieces})
-        return {'kind': what, 'direction': direction, 'atoms': '+'.join(kinds)}
+    def piece_key(what, direction, dom, pieces):
+        """structural key of a (shrunk) failing input, matched against known-findings.json"""
+        if len(pieces) == 1:
+            p = pieces[0]
+            return {'kind': what, 'direction': direction, 'variable': dom, 'atom': p.kind.split(':')[0],
+                    'a_sign': 'neg' if p.a < 0 else 'pos', 'scaled': abs(p.a) != 1, 'shifted': p.b != 0, 'modulated': p.mod != 'none'}
+        return {'kind': what, 'direction': direction, 'variable': dom,
+                'atom': 'sum:' + '+'.join(sorted({q.kind.split(':')[0] for q in pieces}))}
 
-    def one_case(direction, dom, pieces, origin):
+    memo = {}
+
+    def evaluate(direction, dom, pieces):
+        """run the real code on one input and judge it with the Lean spec (and the Lean model); no counting"""
+        ck = ('T', direction, dom, tuple(p.key() for p in pieces))
+        if ck in memo:
+            return memo[ck]
         var = 't' if direction == 'fwd' else dom
         dst = dom if direction == 'fwd' else 't'
         text = ' + '.join(p.text(var) for p in pieces)
-        terms = [t for p in pieces for t in p.terms()]
-        toks = term_tokens(terms)
-        canon_key = (direction, dom, tuple(p.key() for p in pieces))
-        chk.count('direction', direction)
-        chk.count('variable', dom)
-        for p in pieces:
-            chk.count('atom', p.kind.split(':')[0])
-            chk.count('modulation', p.mod)
-            chk.count('scale/shift', ('scaled' if p.a != 1 else 'unscaled') + '+' + ('shifted' if p.b != 0 else 'unshifted'))
+        toks = term_tokens([t for p in pieces for t in p.terms()])
+        r = {'status': None, 'text': text, 'toks': toks, 'res': None}
+        memo[ck] = r
+        lrng = random.Random(repr(ck))
         try:
             res = lcapy_transform(text, var, dst)
+        except LcapyTimeout:
+            r['status'] = 'error:timeout'
+            return r
         except Exception as e:   # noqa
-            chk.case(canon_key, False)
-            chk.count('lcapy', 'error:' + type(e).__name__)
-            return None
+            r['status'] = 'error:' + type(e).__name__
+            return r
         sym = res.sympy
+        r['res'], r['sym'] = res, sym
         if sym.has(S.Integral) or sym.has(S.FourierTransform) or sym.has(S.InverseFourierTransform):
-            chk.case(canon_key, False)
-            chk.count('lcapy', 'unevaluated')
-            return None
+            r['status'] = 'unevaluated'
+            return r
         verdict = None
         for attempt in range(6):
-            pi0, dt0, x0 = sample_point()
+            pi0, dt0, x0 = sample_point(lrng)
             try:
                 ents = obs_of(res, dst, x0, pi0, dt0)
             except Resample:
                 continue
             except CanonFail as e:
-                chk.case(canon_key, False)
-                chk.count('canon', 'fail:' + str(e).split(':')[0].split(' ')[0][:24])
-                if len(chk.coverage['correspondence']['diagnostics']) < 12:
-                    chk.coverage['correspondence']['diagnostics'].append('canon-fail %s -> %s: %s' % (text[:80], str(sym)[:80], e))
-                return None
+                r['status'] = 'canon-fail'
+                r['why'] = str(e)
+                return r
             etoks = ' ; '.join(ents)
             head = '%s %s %s %s %s' % (direction, dom, fstr(pi0), fstr(dt0), fstr(x0))
             verdict = drv.ask1('ft.judge %s | %s | %s' % (head, toks, etoks))
@@ -523,18 +614,105 @@ def run(chk, replay=None):
                 continue
             break
         if verdict is None:
+            r['status'] = 'no-sample-point'
+            return r
+        if verdict in ('unsupported', 'bad-op'):
+            r['status'] = verdict
+            return r
+        r['point'] = {'pi': fstr(pi0), 'dt': fstr(dt0), 'x0': fstr(x0)}
+        r['verdict'] = verdict
+        r['model'] = drv.ask1('ft.modeljudge %s %s %s %s %s %s | %s | %s' % (direction, dom, '0', fstr(pi0), fstr(dt0), fstr(x0), toks, etoks))
+        r['status'] = 'ok' if verdict.startswith('true') else 'violation'
+        return r
+
+    def evaluate_rt(dom, pieces):
+        """inverse(forward(x)) = x on the real code, judged by Lean (`ft.same`)"""
+        ck = ('RT', dom, tuple(p.key() for p in pieces))
+        if ck in memo:
+            return memo[ck]
+        f = evaluate('fwd', dom, pieces)
+        r = {'status': None, 'text': f['text'], 'toks': f['toks']}
+        memo[ck] = r
+        if f['res'] is None or f['status'] == 'unevaluated':
+            r['status'] = 'no-forward'
+            return r
+        lrng = random.Random(repr(ck))
+        try:
+            y = limited(lambda: f['res'](LV['t']))
+        except LcapyTimeout:
+            r['status'] = 'error:timeout'
+            return r
+        except Exception as e:   # noqa
+            r['status'] = 'error:' + type(e).__name__
+            return r
+        sym = y.sympy
+        r['forward'], r['back'] = str(f['sym'])[:300], str(sym)[:300]
+        if sym.has(S.Integral):
+            r['status'] = 'unevaluated'
+            return r
+        for attempt in range(6):
+            pi0, dt0, x0 = sample_point(lrng)
+            try:
+                ents = obs_of(y, 't', x0, pi0, dt0)
+            except Resample:
+                continue
+            except CanonFail as e:
+                r['status'] = 'canon-fail'
+                return r
+            v = drv.ask1('ft.same %s %s | %s | %s' % (fstr(pi0), fstr(x0), f['toks'], ' ; '.join(ents)))
+            if v == 'resample':
+                continue
+            if v in ('unsupported', 'bad-op'):
+                r['status'] = v
+                return r
+            r['point'] = {'pi': fstr(pi0), 'dt': fstr(dt0), 'x0': fstr(x0)}
+            r['verdict'] = v
+            r['status'] = 'ok' if v.startswith('true') else 'violation'
+            return r
+        r['status'] = 'no-sample-point'
+        return r
+
+    def shrink(fails, direction, dom, pieces):
+        """smallest failing input reachable by dropping pieces, going back to the variable f, and stripping
+        coefficient / modulation / shift / scale while the failure persists"""
+        if len(pieces) > 1:
+            for p in pieces:
+                if fails(direction, dom, [p]):
+                    pieces = [p]
+                    break
+        if dom != 'f' and fails(direction, 'f', pieces):
+            dom = 'f'
+        if len(pieces) == 1:
+            p = pieces[0]
+            for cand in (Piece((1, 0), p.mod, p.theta, p.kind, p.a, p.b), Piece((1, 0), 'none', 0, p.kind, p.a, p.b),
+                         Piece((1, 0), 'none', 0, p.kind, p.a, 0), Piece((1, 0), 'none', 0, p.kind, 1 if p.a > 0 else -1, 0),
+                         Piece((1, 0), p.mod, p.theta, p.kind, 1 if p.a > 0 else -1, 0),
+                         Piece((1, 0), 'none', 0, p.kind, 1 if p.a > 0 else -1, p.b), Piece((1, 0), 'none', 0, p.kind, abs(p.a), p.b)):
+                if cand.key() != p.key() and fails(direction, dom, [cand]):
+                    p = cand
+            pieces = [p]
+        return dom, pieces
+
+    def one_case(direction, dom, pieces, origin, with_roundtrip=False):
+        canon_key = (direction, dom, tuple(p.key() for p in pieces))
+        chk.count('direction', direction)
+        chk.count('variable', dom)
+        for p in pieces:
+            chk.count('atom', p.kind.split(':')[0])
+            chk.count('modulation', p.mod)
+            chk.count('scale/shift', ('scaled' if abs(p.a) != 1 else 'unscaled') + '+' + ('reflected+' if p.a < 0 else '') + ('shifted' if p.b != 0 else 'unshifted'))
+        r = evaluate(direction, dom, pieces)
+        st = r['status']
+        if st not in ('ok', 'violation'):
             chk.case(canon_key, False)
-            chk.count('canon', 'no-sample-point')
-            return None
-        if verdict == 'unsupported' or verdict == 'bad-op':
-            chk.case(canon_key, False)
-            chk.count('canon', verdict)
-            return None
+            chk.count('lcapy' if st.startswith(('error', 'unevaluated')) else 'canon', st)
+            if st == 'canon-fail' and len(chk.coverage['correspondence']['diagnostics']) < 12:
+                chk.coverage['correspondence']['diagnostics'].append('canon-fail %s -> %s: %s' % (r['text'][:80], str(r['sym'])[:80], r.get('why')))
+            return
         chk.case(canon_key, True)
         chk.count('lcapy', 'closed-form')
-        chk.sample({'direction': direction, 'variable': dom, 'input': text, 'lcapy': str(sym)[:160], 'origin': origin})
-        # correspondence with the model of the code
-        mv = drv.ask1('ft.modeljudge %s %s %s %s %s %s | %s | %s' % (direction, dom, '0', fstr(pi0), fstr(dt0), fstr(x0), toks, etoks))
+        chk.sample({'direction': direction, 'variable': dom, 'input': r['text'], 'lcapy': str(r['sym'])[:160], 'origin': origin})
+        mv = r['model']
         if mv == 'sympy':
             chk.count('model', 'route-not-modelled(SymPy fallback)')
         elif mv in ('resample', 'unsupported'):
@@ -544,94 +722,71 @@ def run(chk, replay=None):
             chk.coverage['correspondence']['compared'] += 1
             if not mv.startswith('true'):
                 chk.coverage['correspondence']['disagreements'] += 1
-                disagreements.append({'what': 'term-model', 'direction': direction, 'variable': dom, 'input': text,
-                                      'lcapy': str(sym)[:200], 'model': mv, 'point': head})
-        # oracle
-        if not verdict.startswith('true'):
+                disagreements.append({'what': 'term-model', 'direction': direction, 'variable': dom, 'input': r['text'],
+                                      'lcapy': str(r['sym'])[:200], 'model': mv, 'point': r['point']})
+        if st == 'violation':
             counterexamples[0] += 1
-            chk.counterexample(classify_key(direction, dom, pieces, 'transform'),
-                               {'input': {'direction': direction, 'variable': dom, 'expression': text, 'terms': toks, 'origin': origin},
-                                'lcapy': str(sym)[:400], 'spec': 'spec transform and Lcapy result differ at the sample point: ' + verdict,
-                                'point': {'pi': fstr(pi0), 'dt': fstr(dt0), 'x0': fstr(x0)}, 'model': mv},
-                               '%s Fourier transform (variable %s) differs from the formal transform' % ('forward' if direction == 'fwd' else 'inverse', dom))
-        return res
-
-    def roundtrip(pieces, dom, X):
-        """inverse(forward(x)) = x on the real code"""
-        text = ' + '.join(p.text('t') for p in pieces)
-        try:
-            y = X(LV['t'])
-        except Exception as e:   # noqa
-            chk.count('roundtrip', 'error:' + type(e).__name__)
-            return
-        sym = y.sympy
-        if sym.has(S.Integral):
-            chk.count('roundtrip', 'unevaluated')
-            return
-        terms = [t for p in pieces for t in p.terms()]
-        toks = term_tokens(terms)
-        for attempt in range(6):
-            pi0, dt0, x0 = sample_point()
-            try:
-                ents = obs_of(y, 't', x0, pi0, dt0)
-            except Resample:
-                continue
-            except CanonFail as e:
-                chk.count('roundtrip', 'canon-fail')
-                return
-            v = drv.ask1('ft.same %s %s | %s | %s' % (fstr(pi0), fstr(x0), toks, ' ; '.join(ents)))
-            if v == 'resample':
-                continue
-            if v in ('unsupported', 'bad-op'):
-                chk.count('roundtrip', v)
-                return
-            chk.count('roundtrip', 'compared:' + dom)
-            if not v.startswith('true'):
+            sdom, sp = shrink(lambda d, v, ps: evaluate(d, v, ps)['status'] == 'violation', direction, dom, pieces)
+            rr = evaluate(direction, sdom, sp)
+            chk.counterexample(piece_key('transform', direction, sdom, sp),
+                               {'input': {'direction': direction, 'variable': sdom, 'expression': rr['text'], 'terms': rr['toks'], 'origin': origin,
+                                          'shrunk_from': r['text'] if rr is not r else None},
+                                'lcapy': str(rr['sym'])[:400], 'spec': 'spec transform and Lcapy result differ at the sample point: ' + rr['verdict'],
+                                'point': rr['point'], 'model': rr['model']},
+                               '%s Fourier transform (variable %s) differs from the formal transform' % ('forward' if direction == 'fwd' else 'inverse', sdom))
+        if with_roundtrip and direction == 'fwd':
+            q = evaluate_rt(dom, pieces)
+            chk.count('roundtrip', q['status'] + (':' + dom if q['status'] in ('ok', 'violation') else ''))
+            if q['status'] == 'violation':
                 counterexamples[0] += 1
-                k = classify_key('fwd', dom, pieces, 'roundtrip')
-                chk.counterexample(k, {'input': {'expression': text, 'variable': dom, 'terms': toks},
-                                       'lcapy': {'forward': str(X.sympy)[:300], 'back': str(sym)[:300]},
-                                       'spec': 'inverse(forward(x)) = x fails at the sample point: ' + v,
-                                       'point': {'pi': fstr(pi0), 'dt': fstr(dt0), 'x0': fstr(x0)}},
-                                   'inverse Fourier transform of the forward transform (variable %s) is not the original signal' % dom)
-            return
-        chk.count('roundtrip', 'no-sample-point')
+                sdom, sp = shrink(lambda d, v, ps: evaluate_rt(v, ps)['status'] == 'violation', 'fwd', dom, pieces)
+                qq = evaluate_rt(sdom, sp)
+                chk.counterexample(piece_key('roundtrip', 'fwd', sdom, sp),
+                                   {'input': {'expression': qq['text'], 'variable': sdom, 'terms': qq['toks'], 'shrunk_from': q['text'] if qq is not q else None},
+                                    'lcapy': {'forward': qq['forward'], 'back': qq['back']},
+                                    'spec': 'inverse(forward(x)) = x fails at the sample point: ' + qq['verdict'], 'point': qq['point']},
+                                   'inverse Fourier transform of the forward transform (variable %s) is not the original signal' % sdom)
 
     # ---- 3a. every table atom, both directions, plain and with scale/shift/modulation (deterministic part)
     atoms = ['one', 'step', 'sgn', 'abs', 'ramp', 'pw:1', 'pw:2', 'inv1', 'inv2', 'rect', 'tri', 'sinc', 'sinc2', 'gauss', 'delta:0',
-             'expu:0:3:0', 'expu:1:2:0', 'expabs:3', 'cpole:1:3:0', 'cpole:1:-3:0', 'cpole:2:3:0']
+             'expu:0:3:0', 'expu:1:2:0', 'expabs:3', 'cpole:1:3:0', 'cpole:2:3:0']
     for k in atoms:
         for direction in ('fwd', 'inv'):
-            for (a, b, mod, th) in ((1, 0, 'none', 0), (2, -1, 'none', 0), (-1, 0, 'none', 0), (1, 0, 'exp', 2), (Fraction(1, 2), 1, 'cos', 2)):
+            variants = ((1, 0, 'none', 0), (2, -1, 'none', 0), (-1, 0, 'exp', 2)) if quick else \
+                ((1, 0, 'none', 0), (2, -1, 'none', 0), (-1, 0, 'none', 0), (1, 0, 'exp', 2), (Fraction(1, 2), 1, 'cos', 2), (-2, 1, 'sin', 1))
+            for (a, b, mod, th) in variants:
                 if k.split(':')[0] in ('pw', 'one') and (a != 1 or b != 0):
                     continue
                 if k.startswith('delta') and mod != 'none':
                     continue
+                if direction == 'fwd' and k.startswith(('inv', 'cpole')):
+                    continue          # spectrum-side atoms: outside the property's quantifier in the forward direction
                 p = Piece((1, 0), mod, th, k, a, b)
-                X = one_case(direction, 'f', [p], 'atom-sweep')
-                if direction == 'fwd' and X is not None and not k.startswith(('inv', 'cpole')):
-                    roundtrip([p], 'f', X)
+                one_case(direction, 'f', [p], 'atom-sweep', with_roundtrip=not k.startswith(('inv', 'cpole')))
 
+    tick('atom-sweep')
     # ---- 3b. random signals, forward (all four variables) with round trip
     for i in range(n_fwd):
+        crng = random.Random('C12-%d-fwd-%d' % (chk.seed, i))
         dom = DOMS[i % 4] if i % 3 == 0 else 'f'
-        npieces = rng.choice([1, 1, 2, 2, 3])
-        pieces = [rand_piece(rng, 'fwd', simple=(rng.random() < 0.15)) for _ in range(npieces)]
-        X = one_case('fwd', dom, pieces, 'random')
-        if X is not None:
-            roundtrip(pieces, dom, X)
+        npieces = crng.choice([1, 1, 2, 2, 3])
+        pieces = [rand_piece(crng, 'fwd', simple=(crng.random() < 0.15)) for _ in range(npieces)]
+        one_case('fwd', dom, pieces, 'random', with_roundtrip=True)
 
+    tick('random-forward')
     # ---- 3c. random spectra, inverse (all four variables)
     for i in range(n_inv):
+        crng = random.Random('C12-%d-inv-%d' % (chk.seed, i))
         dom = DOMS[i % 4] if i % 3 == 0 else 'f'
-        npieces = rng.choice([1, 1, 2, 2, 3])
-        pieces = [rand_piece(rng, 'inv', simple=(rng.random() < 0.15)) for _ in range(npieces)]
+        npieces = crng.choice([1, 1, 2, 2, 3])
+        pieces = [rand_piece(crng, 'inv', simple=(crng.random() < 0.15)) for _ in range(npieces)]
         if dom != 'f':
             for p in pieces:          # keep constant phases free of the indeterminate pi (see DESIGN note): no shift together with modulation
                 if p.mod != 'none':
                     p.b = Fraction(0)
         one_case('inv', dom, pieces, 'random')
 
+    tick('random-inverse')
     # ---- 3d. conversions between the frequency variables (table + real code)
     conv_exprs = [Piece((1, 0), 'none', 0, 'cpole:1:3:0', 1, 0), Piece((1, 0), 'none', 0, 'sinc', 1, 0),
                   Piece((2, 0), 'none', 0, 'delta:0', 1, -1), Piece((1, 0), 'exp', -1, 'rect', 2, 0), Piece((1, 0), 'none', 0, 'inv1', 1, 0)]
@@ -645,8 +800,8 @@ def run(chk, replay=None):
                 toks = term_tokens(p.terms())
                 chk.count('conversion', '%s->%s' % (d, e))
                 try:
-                    X = lexpr(text)
-                    Y = X(LV[e])
+                    X = mk(text, d)
+                    Y = limited(lambda: X(LV[e]))
                 except Exception as ex:   # noqa
                     chk.case(('conv', d, e, p.key()), False)
                     chk.count('lcapy', 'conv-error:' + type(ex).__name__)
@@ -686,6 +841,7 @@ def run(chk, replay=None):
                                            'conversion of a %s-domain expression to the %s domain uses the wrong substitution' % (d, e))
                     break
 
+    tick('conversions')
     # ---- 3e. Laplace -> Fourier route for causal, absolutely integrable signals
     n_lap = 6 if quick else 60
     for i in range(n_lap):
@@ -699,8 +855,8 @@ def run(chk, replay=None):
         for dom in (DOMS if i % 2 == 0 else ['f', 'omega']):
             chk.count('laplace-route', dom)
             try:
-                H = lexpr(text)(ls)
-                Y = H(LV[dom], causal=True)
+                H = limited(lambda: mk(text, 't')(ls))
+                Y = limited(lambda: H(LV[dom], causal=True))
             except Exception as ex:   # noqa
                 chk.count('lcapy', 'laplace-error:' + type(ex).__name__)
                 continue
@@ -727,6 +883,7 @@ def run(chk, replay=None):
                                        'Laplace->Fourier shortcut for a causal stable expression (variable %s) is not the Laplace transform on the j-omega axis' % dom)
                 break
 
+    tick('laplace-route')
     # ---- 4. classification
     chk.coverage['correspondence']['samples_of_disagreement'] = disagreements[:6]
     if broken and counterexamples[0] == 0 and not chk.known_seen:
